@@ -27,6 +27,8 @@ def std_case(rnd, seed, *, kinds=("gauss", "bimodal", "expedge", "corr"), scenar
         case["like_fault"] = dict(kind="crash.process", batch=rnd.randrange(3, 40))
         if rnd.random() < 0.3:
             case["reconfig"] = dict(n_particles=cfg["n_particles"] * rnd.choice([2, 3]))
+        if rnd.random() < 0.3:
+            case["resume_n_total"] = rnd.choice([case["n_total"] * 2, case["n_total"] * 3, max(32, case["n_total"] // 2)])
     elif case["scenario"] == "like_raise":
         case["like_fault"] = dict(kind="like.raise", batch=rnd.randrange(2, 30))
     elif case["scenario"] == "pool_death":
@@ -53,6 +55,8 @@ def generic_shrink(case):
         yield mod(scenario="plain", like_fault=None, save_every=None, reconfig=None)
     if c.get("reconfig"):
         yield mod(reconfig=None)
+    if c.get("resume_n_total"):
+        yield mod(resume_n_total=None)
     if c.get("eval", "scalar") != "scalar":
         yield mod(eval="scalar", pool=None)
     if c["target"].get("blobs"):
